@@ -547,9 +547,22 @@ pub struct InferenceCtx<'a, F: EvalComptimeFn> {
     generics_arena: &'a mut Arena<ComptimeResult>,
     call_associated_generics: FxHashMap<(ConcreteLoc, Idx<hir::Expr>), ComptimeArgs>,
     inferred_stmts: FxHashSet<(ConcreteLoc, Idx<hir::Stmt>)>,
+    /// What the attempts so far have learnt about a body that had to wait for something else
+    /// (the expected types of its expressions and which statements use which locals).
+    ///
+    /// The next attempt skips the statements in `inferred_stmts`, so it can't learn these things
+    /// again, but it needs them when the body is finally finished (`reinfer_usages`,
+    /// `replace_weak_tys`). Without them a body that was interrupted ended up typed differently
+    /// from one that ran through in one go.
+    interrupted_bodies: FxHashMap<ConcreteLoc, InterruptedBody>,
     diagnostics: Vec<TyDiagnostic>,
     eval_comptime: F,
 }
+
+type InterruptedBody = (
+    ArenaMap<Idx<hir::Expr>, ExprExpected>,
+    ArenaMap<Idx<hir::LocalDef>, FxHashSet<Idx<hir::Stmt>>>,
+);
 
 impl<'a, F: EvalComptimeFn> InferenceCtx<'a, F> {
     pub fn new(
@@ -570,6 +583,7 @@ impl<'a, F: EvalComptimeFn> InferenceCtx<'a, F> {
             all_finished_locations: Default::default(),
             to_infer: Default::default(),
             inferred_stmts: Default::default(),
+            interrupted_bodies: Default::default(),
             eval_comptime,
         }
     }
@@ -893,14 +907,19 @@ impl<'a, F: EvalComptimeFn> InferenceCtx<'a, F> {
             );
         }
 
+        let (expected_tys, local_usages) = self
+            .interrupted_bodies
+            .remove(&global.wrap())
+            .unwrap_or_default();
+
         let mut global_ctx = GlobalInferenceCtx {
             loc: global.wrap(),
             world_index: self.world_index,
             world_bodies: self.world_bodies,
             bodies: &self.world_bodies[global.file()],
             interner: self.interner,
-            expected_tys: Default::default(),
-            local_usages: Default::default(),
+            expected_tys,
+            local_usages,
             generics_arena: &mut self.generics_arena,
             call_associated_generics: &mut self.call_associated_generics,
             inferred_stmts: &mut self.inferred_stmts,
@@ -976,6 +995,11 @@ impl<'a, F: EvalComptimeFn> InferenceCtx<'a, F> {
             Ok(ty) => ty,
             Err(why) => {
                 global_ctx.tys.signatures.remove(&global.wrap());
+                let interrupted = (
+                    std::mem::take(&mut global_ctx.expected_tys),
+                    std::mem::take(&mut global_ctx.local_usages),
+                );
+                self.interrupted_bodies.insert(global.wrap(), interrupted);
                 return Err(why);
             }
         };
@@ -1045,14 +1069,19 @@ impl<'a, F: EvalComptimeFn> InferenceCtx<'a, F> {
 
                 let (param_tys, return_ty) = fn_type.as_function().unwrap();
 
+                let (expected_tys, local_usages) = self
+                    .interrupted_bodies
+                    .remove(&lambda_loc.wrap())
+                    .unwrap_or_default();
+
                 let mut global_ctx = GlobalInferenceCtx {
                     loc: lambda_loc.wrap(),
                     world_index: self.world_index,
                     world_bodies: self.world_bodies,
                     bodies: &self.world_bodies[lambda_loc.file()],
                     interner: self.interner,
-                    expected_tys: Default::default(),
-                    local_usages: Default::default(),
+                    expected_tys,
+                    local_usages,
                     generics_arena: &mut self.generics_arena,
                     call_associated_generics: &mut self.call_associated_generics,
                     inferred_stmts: &mut self.inferred_stmts,
@@ -1066,7 +1095,7 @@ impl<'a, F: EvalComptimeFn> InferenceCtx<'a, F> {
                     eval_comptime: &mut self.eval_comptime,
                 };
 
-                global_ctx.finish_body(
+                let finished = global_ctx.finish_body(
                     block,
                     Some(ExprExpected {
                         expected_ty: return_ty,
@@ -1075,7 +1104,17 @@ impl<'a, F: EvalComptimeFn> InferenceCtx<'a, F> {
                         is_default: return_ty_expr.is_none(),
                     }),
                     false,
-                )?;
+                );
+
+                if let Err(why) = finished {
+                    let interrupted = (
+                        std::mem::take(&mut global_ctx.expected_tys),
+                        std::mem::take(&mut global_ctx.local_usages),
+                    );
+                    self.interrupted_bodies
+                        .insert(lambda_loc.wrap(), interrupted);
+                    return Err(why);
+                }
 
                 self.tys.signatures.insert(
                     lambda_loc.wrap(),
